@@ -73,3 +73,19 @@ Proof.
   rewrite gen_bytes_eqb_nil. destruct e as [|x e]; [exfalso; exact (NE [] eq_refl eq_refl)|].
   cbn [is_nil]. rewrite gen_bytes_eqb_eq. destruct (Bytes.bytes_eqb signer (x :: e)); reflexivity.
 Qed.
+
+(* ================================================================== *)
+(* phase 2: Validate after pubKey.Verify: an error of the verifier and a false verdict are both
+   refusals (validate_head: if verify pk payload s then Ok (peer_id pk) else Err EBadSig) *)
+Theorem tie_Validate_verify : forall (ok : bool) (err : option string),
+  match head_Validate_verify (ok, err) with
+  | FFall _ => ok = true /\ err = None
+  | FReturn s _ => (ok = false \/ err <> None) /\
+                   (err = None -> s = "return """", ErrBadSignature"%string)
+  | _ => False
+  end.
+Proof.
+  intros. unfold head_Validate_verify. destruct err; cbn [isNone negb].
+  - split; [right; discriminate|discriminate].
+  - destruct ok; cbn; auto.
+Qed.
